@@ -77,6 +77,11 @@ def Bounds.zero : Bounds := ⟨0, some 0⟩
 (`wow_world_messages/src/manual/**`, `util/functions/shared.rs`): a mask of `m` bytes followed by one payload per set slot;
 a spline list is a u32 count, a full first point and packed further points; `hi = none` where the maximum is not modelled -/
 def primBounds (n : String) : Bounds :=
+  match primKind n with
+  | .achDone => ⟨4, none⟩
+  | .achProg => ⟨4, none⟩
+  | .splines => ⟨4, none⟩
+  | .other =>
   if n == "AuraMask_1_12" then ⟨4, some (4 + 32 * 2)⟩
   else if n == "AuraMask_2_4_3" then ⟨8, some (8 + 64 * 3)⟩
   else if n == "AuraMask_3_3_5" then ⟨8, some (8 + 64 * 5)⟩
